@@ -31,6 +31,42 @@ type propDef struct {
 	mutants []mutant
 }
 
+// depends: the rule sets of other properties that a property's statement
+// rests on; a check runs its own rules and then these (obligations keep the
+// rule ids of the property they belong to).
+var depends = map[string][]string{
+	"C01": {"C04", "C05", "C15"},
+	"C02": {"C13", "C17"},
+	"C03": {"C02", "C13", "C17"},
+	"C04": {"C02", "C13", "C14", "C17"},
+	"C05": {},
+	"C06": {"C15", "C08"},
+	"C07": {},
+	"C08": {},
+	"C09": {},
+	"C10": {"C09", "C15"},
+	"C11": {"C04", "C12", "C14", "C17"},
+	"C12": {},
+	"C13": {"C02"},
+	"C14": {},
+	"C15": {"C05", "C06"},
+	"C16": {"C05", "C09"},
+	"C17": {"C02"},
+	"C18": {"C11", "C12", "C16", "C03"},
+	"C19": {"C04"},
+	"C20": {"C05", "C13"},
+}
+
+// runWithDeps evaluates a property's rules and those it depends on (one level).
+func runWithDeps(pd *propDef, c *Ctx) {
+	pd.run(c)
+	for _, d := range depends[pd.id] {
+		if dp := props[d]; dp != nil {
+			dp.run(c)
+		}
+	}
+}
+
 var props = map[string]*propDef{}
 
 func register(p *propDef) { props[p.id] = p }
@@ -347,7 +383,7 @@ func probeAll(repo, verif, overlayF string) {
 					c.undecided(id+".engine", "panic", 0, fmt.Sprint(r))
 				}
 			}()
-			pd.run(c)
+			runWithDeps(pd, c)
 		}()
 		c.applyFloors()
 		kf := map[string]bool{}
